@@ -34,6 +34,7 @@ type chainSpec struct {
 	EmptyPct int    `json:"empty_pct"`
 	EmptyRun int    `json:"empty_run"` // >1: empties and non-empties come in runs of about this length
 	NLists   int    `json:"nlists"`
+	Distinct bool   `json:"distinct_bodies,omitempty"` // block i carries list 1+i%NLists (directed e2e scenario)
 }
 
 func txRoot(txs []*types.Transaction) common.Hash {
@@ -94,6 +95,9 @@ func genChain(r *rand.Rand, sp chainSpec, peers int) *chain {
 		b := 0
 		if !empty && sp.NLists > 0 {
 			b = 1 + r.Intn(sp.NLists)
+		}
+		if sp.Distinct && sp.NLists > 0 {
+			b = 1 + i%sp.NLists
 		}
 		extra := make([]byte, 4)
 		r.Read(extra)
